@@ -366,6 +366,12 @@ def check_same_genes_same_stream(h: Harness):
         return out
 
     def draw(src, op, key):
+        try:
+            return draw_(src, op, key)
+        except Exception as e:  # noqa: BLE001   (reported below: every primitive returns a value for these arguments)
+            return f"error:{type(e).__name__}: {e}"
+
+    def draw_(src, op, key):
         kind, lo, hi = op
         if kind == "randint":
             return src.randint(lo, hi, key) if key is not None else src.randint(lo, hi)
@@ -396,6 +402,11 @@ def check_same_genes_same_stream(h: Harness):
             rng_keys = [rng.choice(["ka", "kb", "$infrastructure"]) for _ in ops]
             solo = mk()
             ref = [draw(solo, op, keyfor(i, op)) for i, op in enumerate(ops)]
+            broken = [(ops[i], x) for i, x in enumerate(ref) if isinstance(x, str) and x.startswith("error:")]
+            if broken:
+                h.fail(name, "raises", f"{name} over the genes {genes if not keyed else sdna}: {broken[0][0][0]}{tuple(broken[0][0][1:])} raised {broken[0][1][6:]}",
+                       {"genes": genes if not keyed else sdna, "ops": ops})
+                continue
             for pattern in ("sequential", "both-created-first", "alternating"):
                 if pattern == "sequential":
                     a = mk()
